@@ -26,6 +26,7 @@ type histOpts struct {
 	overrides   bool
 	settings    bool
 	migration   bool
+	stratEdits  bool // user edits of canary replicas / strategy although not a convergence profile
 }
 
 func genStrategy(r *rand.Rand, o histOpts, canary bool, defMode string) StrategyDef {
@@ -126,6 +127,7 @@ func genHistory(r *rand.Rand, tier string, o histOpts) *World {
 	if o.migration && chance(r, 0.5) {
 		w.EDS[0].OldDS = "legacy"
 		w.Foreign = chance(r, 0.7)
+		w.Cfg.MigrationEdits = !o.c02 && chance(r, 0.5)
 		if o.faults && chance(r, 0.5) {
 			w.Cfg.TargetCall = " get DaemonSet "
 		}
@@ -156,7 +158,7 @@ func genHistory(r *rand.Rand, tier string, o histOpts) *World {
 		cfg.SkewSec = pick(r, 0, 0, 1, -1, 2)
 		cfg.KubeletSkewSec = pick(r, 0, 0, 1, -2)
 	}
-	cfg.StrategyEdits = o.c02 && chance(r, 0.3)
+	cfg.StrategyEdits = (o.c02 || o.stratEdits) && chance(r, 0.3)
 	cfg.QuiesceRounds = 4
 	if o.c02 {
 		w.Extra["c02"] = "1"
@@ -1172,12 +1174,12 @@ func mixProfile(hp *Profile, inj func(*rand.Rand, string, int) *World, bodies ma
 }
 
 func init() {
-	register(mixProfile(histProfile("C01", []string{"C01"}, 3000, 120000, histOpts{maxNodes: 6, pCanary: 0.4, fancy: []float64{0.3, 0.7}, faults: true}, "C01.create", "C01.dup", "C01.ineligible"),
+	register(mixProfile(histProfile("C01", []string{"C01"}, 3000, 120000, histOpts{maxNodes: 6, pCanary: 0.4, fancy: []float64{0.3, 0.7}, faults: true, stratEdits: true}, "C01.create", "C01.dup", "C01.ineligible"),
 		genC01Inject, map[string]func(*Sim){"c01inject": bodyC01Inject},
 		"Even run indices: state injection - 1-8 (thorough 1-16) nodes with labels/taints from the vocabulary, a template with selector/affinity/tolerations, per node a multiset of 0-3 daemon pods (phase Pending/Running/Failed/Unknown/creating, scheduled or not, Terminating or not, of the old or the new replica set or adopted from the old DaemonSet, equal or different ages), canary block present or absent, both node-assignment modes; then syncs of the new and the old replica set in drawn order with seeded map order, parallel-call interleaving and API faults."))
 	register(mixProfile(histProfile("C09", []string{"C09"}, 3000, 120000, histOpts{maxNodes: 8, pCanary: 0.2, fancy: []float64{0, 0.3}, faults: true}, "C09.creates", "C09.spacing", "C09.update-del"),
 		genC09Inject, map[string]func(*Sim){"c09inject": bodyC09Inject},
-		"Even run indices: 0-40 nodes lacking a pod, slowStartIntervalDuration 1s-5m, additive increase as number or percent, maxParallelPodCreation 1-250, reconcileFrequency 1s-1m; 5-20 reconcile requests at instants drawn from the boundary set (slot edges of the Active condition and LastFullSync+frequency, each at -1s, exactly, +1ns, +1s, plus small steps), a template change half-way in a third of the runs, partial kubelet progress in between, rejects and API clock skew in a third."))
+		"Even run indices: 0-40 nodes lacking a pod, slowStartIntervalDuration 1s-5m, additive increase as number or percent, maxParallelPodCreation 1-250, reconcileFrequency 1s-1m; 5-20 reconcile requests at instants drawn from the boundary set (slot edges of the Active condition and LastFullSync+frequency, each at -1s, exactly, +1ns, +1s, plus small steps), a template change half-way in a third of the runs (in a fifth a canary that is validated or failed right after a sync of its replica set, with the replica sets requested again at the same instant), partial kubelet progress in between, rejects and API clock skew in a third."))
 }
 
 func init() {
